@@ -162,10 +162,13 @@ Theorem C11_body_without_header_panics :
   let s0 := run w3_tree 6 (init_st g) [[4]] in
   let sk := crash_run w3_tree 6 s0 [2;3] 1 in
   crashmid sk = false /\
-  exists d h, recover w3_tree (disk_of sk) = Some (d, h) /\
+  match recover w3_tree (disk_of sk) with
+  | Some (d, h) =>
     snd (InsertChain w3_tree 6 (fresh d h) (blocks_of w3_tree [2;3])) = EPanic /\
-    budget (fst (InsertChain w3_tree 6 (fresh d h) (blocks_of w3_tree [2;3]))) = Some O.
-Proof. vm_compute. split; [reflexivity|]. eexists; eexists. split; [reflexivity|]. split; reflexivity. Qed.
+    budget (fst (InsertChain w3_tree 6 (fresh d h) (blocks_of w3_tree [2;3]))) = Some O
+  | None => False
+  end.
+Proof. vm_compute. split; [reflexivity|]. split; reflexivity. Qed.
 Print Assumptions C11_body_without_header_panics.
 
 (* ---- non-vacuity ------------------------------------------------------------------------------------ *)
@@ -192,20 +195,22 @@ Proof.
 Qed.
 Print Assumptions C11_nonvacuous_import.
 
-(* crash points of the reorganising import: write 9 (after WriteHeader of block 5's
-   second write) is outside the switch and restarts consistent on the old head;
-   write 11 (WriteCanonicalHash(2,5) inside reorg) is inside it and restarts with
-   head 4 but canonical[2] = 5 *)
+(* crash points of the reorganising import: write 7 (the state commit of block 5)
+   is outside the switch and restarts consistent on the old head 4; write 9
+   (WriteCanonicalHash(2,5) inside reorg) is inside it and restarts with head 4
+   but canonical[2] = 5 *)
 Example C11_nonvacuous_crash :
   let s0 := run ex_tree 6 (init_st ex_g) [[2;3;4]; [5;6]] in
   budget s0 = None /\
-  crashmid (crash_run ex_tree 6 s0 [5;6;7] 9) = false /\
-  (exists d, recover ex_tree (disk_of (crash_run ex_tree 6 s0 [5;6;7] 9)) = Some (d, 4) /\ consistent_b ex_tree d 4 = true) /\
-  crashmid (crash_run ex_tree 6 s0 [5;6;7] 11) = true /\
-  (exists d, recover ex_tree (disk_of (crash_run ex_tree 6 s0 [5;6;7] 11)) = Some (d, 4) /\ chain_consistent_b ex_tree d 4 = false).
-Proof.
-  vm_compute. split; [reflexivity|]. split; [reflexivity|]. split.
-  - eexists. split; reflexivity.
-  - split; [reflexivity|]. eexists. split; reflexivity.
-Qed.
+  crashmid (crash_run ex_tree 6 s0 [5;6;7] 7) = false /\
+  match recover ex_tree (disk_of (crash_run ex_tree 6 s0 [5;6;7] 7)) with
+  | Some (d, h) => h = 4 /\ consistent_b ex_tree d h = true
+  | None => False
+  end /\
+  crashmid (crash_run ex_tree 6 s0 [5;6;7] 9) = true /\
+  match recover ex_tree (disk_of (crash_run ex_tree 6 s0 [5;6;7] 9)) with
+  | Some (d, h) => h = 4 /\ chain_consistent_b ex_tree d h = false
+  | None => False
+  end.
+Proof. vm_compute. repeat split; reflexivity. Qed.
 Print Assumptions C11_nonvacuous_crash.
